@@ -56,6 +56,18 @@ def classify(case, r):
     compile-error | skipped"""
     impl = r.get('impl', '')
     model = r.get('model')
+    if case.get('kind') == 'parse':
+        if impl.startswith('P '):
+            return 'impl-panic', impl
+        if impl == 'H':
+            return 'impl-hang', impl
+        if not model:
+            return 'skipped', 'no model outcome'
+        if model.startswith('X '):
+            return 'inconclusive', model[:80]
+        if impl == model:
+            return 'agree', ''
+        return 'disagree', 'impl=%s model=%s' % (impl[:300], model[:300])
     if r.get('compile', 'ok') != 'ok':
         c = r['compile']
         if c.startswith('P ') or c == 'H':
@@ -232,7 +244,7 @@ class Check:
                 continue
             st, detail = classify(case, r)
             self.stats[st] += 1
-            self.dist['outcome'][(r.get('impl') or '-')[:1] if r.get('compile', 'ok') == 'ok' else 'compile-error'] += 1
+            self.dist['outcome'][(r.get('impl') or '-')[:1] if r.get('compile', 'ok') in ('ok', '') else 'compile-error'] += 1
             self.count(case, r, nontrivial=(st not in ('compile-error', 'skipped')))
             if st in ('impl-panic', 'impl-hang'):
                 if (panics_are or self.pid) == self.pid:
